@@ -634,6 +634,20 @@ func (pe *pathEnum) stmt(in []Path, s ast.Stmt) []Path {
 			cur = pe.stmt(cur, s.Init)
 		}
 		aevs := pe.events(s.Assign)
+		// the switched expression
+		var subj ast.Expr
+		switch a := s.Assign.(type) {
+		case *ast.AssignStmt:
+			if len(a.Rhs) == 1 {
+				if ta, ok := ast.Unparen(a.Rhs[0]).(*ast.TypeAssertExpr); ok {
+					subj = ta.X
+				}
+			}
+		case *ast.ExprStmt:
+			if ta, ok := ast.Unparen(a.X).(*ast.TypeAssertExpr); ok {
+				subj = ta.X
+			}
+		}
 		var out []Path
 		for _, p := range cur {
 			if p.End != "fall" {
@@ -641,26 +655,60 @@ func (pe *pathEnum) stmt(in []Path, s ast.Stmt) []Path {
 				continue
 			}
 			base := extend(p, aevs)
+			subjTerm := ""
+			if subj != nil {
+				subjTerm, _ = pe.xlatP(&base).term(subj)
+			}
+			isAtom := func(e ast.Expr) string {
+				t := types.ExprString(e)
+				if tv, ok := pe.info.Types[e]; ok {
+					t = typeName(tv.Type)
+				}
+				return "is:" + t + "|" + subjTerm
+			}
 			hasDefault := false
+			var allTypes []ast.Expr
+			for _, cc := range s.Body.List {
+				allTypes = append(allTypes, cc.(*ast.CaseClause).List...)
+			}
+			noneF := func() Formula {
+				var f Formula = FConst(true)
+				for _, e := range allTypes {
+					f = fand(f, &FLit{isAtom(e), 2, 1})
+				}
+				return f
+			}
 			for _, cc := range s.Body.List {
 				cl := cc.(*ast.CaseClause)
 				q := clonePath(base)
 				lbl := "default"
+				var f Formula
 				if cl.List == nil {
 					hasDefault = true
+					f = noneF()
 				} else {
 					var ts []string
+					var any Formula = FConst(false)
 					for _, e := range cl.List {
 						ts = append(ts, types.ExprString(e))
+						any = fnot(fand(fnot(any), fnot(Formula(&FLit{isAtom(e), 2, 2}))))
 					}
+					f = any
 					lbl = "type " + strings.Join(ts, ",")
 				}
-				addCond(&q, CondStep{Label: lbl, Taken: true})
+				if subjTerm == "" {
+					f = nil
+				}
+				addCond(&q, CondStep{Label: lbl, Taken: true, F: f})
 				out = append(out, pe.seq([]Path{q}, cl.Body)...)
 			}
 			if !hasDefault {
 				q := clonePath(base)
-				addCond(&q, CondStep{Label: "type <no case>", Taken: true})
+				var f Formula
+				if subjTerm != "" {
+					f = noneF()
+				}
+				addCond(&q, CondStep{Label: "type <no case>", Taken: true, F: f})
 				out = append(out, q)
 			}
 		}
